@@ -142,7 +142,7 @@ def cmd_validate(path):
     for s in rec['samples']:
         obs, failed = _run_concrete(mod, s['harness'], s['params'],
                                     s['inputs'])
-        if json.loads(json.dumps(obs)) != s['obs'] or failed:
+        if json.loads(json.dumps(obs)) != s['obs']:
             bad += 1
             print('WITNESS-MISMATCH harness=%s params=%s inputs=%s\n'
                   '  symbolic=%s\n  concrete=%s failed=%s' % (
